@@ -87,6 +87,9 @@ def contexts(tier: str, rng: random.Random, modes=None, stochastic: bool = False
                         add(try_ctx(MPBFloatContext, p, emin, mv, rm, OV.OVERFLOW, enable_inf=False))
                         add(try_ctx(MPBFloatContext, p, emin, mv, rm, OV.OVERFLOW, enable_inf=False,
                                     enable_nan=False, inf_value=Float(x=mv), nan_value=F(0)))
+                        if c == (1 << p) - 1 and emax == emin + 2:
+                            # a finite substitute that is NOT the bound (so the overflow rule is not saturation)
+                            add(try_ctx(MPBFloatContext, p, emin, mv, rm, OV.OVERFLOW, enable_inf=False, inf_value=F(1)))
                     mv = RealFloat(c=(1 << p) - 1, exp=emax - p + 1)
                     add(try_ctx(MPBFloatContext, p, emin, mv, rm, OV.SATURATE,
                                 neg_maxval=RealFloat(s=True, c=1, exp=emax)))
@@ -107,6 +110,9 @@ def contexts(tier: str, rng: random.Random, modes=None, stochastic: bool = False
         add(try_ctx(MPFixedContext, -1, rm, enable_nan=True, enable_inf=True))
         add(try_ctx(MPFixedContext, -2, rm, nan_value=F(0), inf_value=F(7)))
         add(try_ctx(MPFixedContext, -2, rm, enable_inf=True, nan_value=Float(isinf=True)))
+        add(try_ctx(MPFixedContext, -3, rm, enable_nan=True, inf_value=F(2)))
+        add(try_ctx(MPFixedContext, 1, rm, enable_nan=True))
+        add(try_ctx(MPFixedContext, 1, rm, enable_inf=True))
         # --- MPBFixed
         for nmin in (-2, -1, 1):
             for (hi, lo) in ((7, None), (5, -2), (4, 0), (6, -6)):
